@@ -31,14 +31,17 @@ def _canonical_path(expr: Expr) -> str:
     with suppress(AttributeError, KeyError, StopIteration):
         root = next(element for element in expr.iterate(flat=True) if isinstance(element, ExprName))
         collection = root.parent.modules_collection  # type: ignore[union-attr]
-        seen: set[str] = set()
-        while path not in seen:
-            seen.add(path)
+        followed: set[str] = set()
+        while True:
             parts = path.split(".")
             obj: Any = collection
             for index, part in enumerate(parts):
                 obj = obj.members[part]
                 if obj.is_alias:
+                    if obj.path in followed:
+                        # Cyclic aliases (the target path runs through the alias itself): give up.
+                        return expr.canonical_path
+                    followed.add(obj.path)
                     # Replace the aliased prefix by its target, and start over.
                     path = ".".join((obj.target_path, *parts[index + 1 :]))
                     break
